@@ -258,3 +258,28 @@ PROPS["C13"] = {
         "no regex in the pool matches the empty string as a whole; distinct IPs among existing pods",
     ],
 }
+
+PROPS["C16"] = {
+    "pkg": "c16", "level": "fault_enumeration", "crash_is_violation": True,
+    "jobs": {
+        "quick": [
+            {"name": "enumeration", "kind": "plain", "run": "^TestHTTPFaultEnumeration$", "shards": 8},
+            {"name": "random", "run": "^TestHTTPFaultsRandom$", "checks": 320, "shards": 4},
+            {"name": "sender", "run": "^TestSenderFaults$", "checks": 96, "shards": 16},
+            {"name": "socket", "run": "^TestSocketBackends$", "checks": 64, "shards": 4},
+        ],
+        "thorough": [
+            {"name": "enumeration", "kind": "plain", "run": "^TestHTTPFaultEnumeration$", "shards": 8, "timeout": 2400},
+            {"name": "random", "run": "^TestHTTPFaultsRandom$", "checks": 32000, "shards": 4, "timeout": 1700},
+            {"name": "sender", "run": "^TestSenderFaults$", "checks": 3200, "shards": 16, "timeout": 1700},
+            {"name": "socket", "run": "^TestSocketBackends$", "checks": 1600, "shards": 4, "timeout": 1700},
+        ],
+    },
+    "assumptions": [
+        "HTTP backends take timers and backoff clocks from the request context: a mock clock is advanced whenever no callback has arrived, so retry windows are crossed in milliseconds",
+        "'exactly one callback' observes a finite grace period after the first callback (context cancelled, clock run one hour ahead, 2 ms of real time)",
+        "an error is required whenever the last observed attempt of some request body failed; whether a cancelled flush without transport failure reports an error is not asserted (the statement does not say)",
+        "the scripted RoundTripper, like net/http's transport, fails an attempt whose request body is shorter than its Content-Length (the OTLP backend re-sends a consumed request on retry; its retries therefore always fail - noted in DESIGN.md, not a listed property)",
+        "the sender's reconnect timer is 1 s of real time: at most one connect failure per generated case",
+    ],
+}
